@@ -155,6 +155,25 @@ func lpDumpWithout(dump string, base uint64) string {
 	return dump[:i] + dump[i+j+2:]
 }
 
+// lpSlotOf returns the rendering of the reassembly slot of base in a link-service dump ("" = no slot).
+func lpSlotOf(dump string, base uint64) string {
+	tag := fmt.Sprintf("pms[%d]=", base)
+	i := strings.Index(dump, tag)
+	if i < 0 {
+		return ""
+	}
+	j := strings.Index(dump[i:], "} ")
+	if j < 0 {
+		return dump[i:]
+	}
+	return dump[i : i+j+2]
+}
+
+// lpStuckKey: the slot of a message whose last fragment arrived but whose bytes do not decode may be
+// given up (consumed) or left as it was before the frame; a slot that stays in the store as a COMPLETE
+// message is state this frame added and nothing ever reclaims (no later fragment can complete it again).
+const lpStuckKey = "reassembled packet that does not decode stays in the reassembly store as a complete message (never reclaimed)"
+
 var lpRejectKeys = map[string]string{
 	"undecodable":           "undecodable frame changed link-service/dispatch state",
 	"invalid-frag":          "LP frame with invalid fragmentation fields is not dropped cleanly (reassembly state or dispatch changed)",
